@@ -104,7 +104,7 @@ fn enum_visit(job: &EnumJob, p: &Params, seq: &mut Vec<f64>, rep: &mut Report, j
 }
 
 fn run_enum(ctx: &Ctx) -> Report {
-    let depth = ctx.pick(8, 9);
+    let depth = ctx.pick(8, 10);
     let mut jobs = Vec::new();
     for kind in KINDS {
         for n in 1..=5usize {
@@ -140,7 +140,7 @@ struct RandJob {
 }
 
 fn run_rand(ctx: &Ctx) -> Report {
-    let njobs = ctx.pick(400, 4000);
+    let njobs = ctx.pick(1600, 24000);
     let jobs: Vec<RandJob> = (0..njobs).map(|i| RandJob { idx: i, seed: ctx.seed }).collect();
     let budget = ctx.pick(1_500_000usize, 6_000_000usize); // len * period cap per stream
     par_run(jobs, ctx.threads, move |job, rep| {
@@ -184,7 +184,7 @@ fn run_rand(ctx: &Ctx) -> Report {
 }
 
 fn run_regime(ctx: &Ctx) -> Report {
-    let reps = ctx.pick(1, 4);
+    let reps = ctx.pick(2, 16);
     let mut jobs = Vec::new();
     let ms = [1e-3, 1.0, 37.5, 1e6];
     let mut idx = 0usize;
